@@ -33,3 +33,7 @@ fields("OptimizationResult", evolution="list[Population]", rates="list[float]", 
 fields("ContinuousVariable", lower_bound="float", upper_bound="float")
 fields("DiscreteVariable", choices="list[any]")
 fields("BinaryVariable", n_vars="int")
+
+# Task.space_dimension is the sum of the variables' sizes (Task.__init__; checked by the C14 law campaign): never negative
+from pyvc.state import FIELD_INVARIANTS
+FIELD_INVARIANTS["space_dimension"] = lambda z: z >= 0
